@@ -24,7 +24,7 @@ from . import cache_driver as cd
 
 ALL_PROPS = ['C01', 'C02', 'C05', 'C06', 'C07', 'C08', 'C15', 'C16', 'C18', 'C20']
 ALL_OPS = ['call', 'load', 'loadk', 'dump', 'dumpk', 'clear', 'arch_off', 'arch_on', 'set_archive',
-           'lookup', 'key', 'info']
+           'lookup', 'key', 'info', 'sync']
 
 DEVIATIONS = {
     # name -> (property, constants that expose it).  Each names a defect of the pinned code that was
@@ -489,7 +489,7 @@ def plan_common(run, pid, algs, ops, args, narchs=(0, 1), purges=(False,), safes
     eops = set(exh_ops or (set(ops) & {'call', 'clear', 'dump', 'load'}))
     # alphabet size -> the deepest complete enumeration that stays within the tier's budget
     asize = sum({'call': len(ea), 'lookup': len(ea), 'key': len(ea), 'clear': 2, 'loadk': 4, 'dumpk': 4,
-                 'set_archive': 2}.get(o, 1) for o in eops)
+                 'set_archive': 2, 'sync': 2}.get(o, 1) for o in eops)
     budget = 60000 if thorough else 1500
     ed = 2
     while asize ** (ed + 1) <= budget:
@@ -590,11 +590,12 @@ def scenario_clone(run, nseq, length, backends=('plain', 'dictarch', 'file', 'di
         module = rng.choice(['std', 'safe'])
         backend = rng.choice(list(backends))
         km = rng.choice([('str', True, False), ('hash-md5', True, False), ('raw', True, False), ('default',), ('dill', True, False),
-                         ('chain-str-sha1', True, False), ('chain-md5-pickle', True, True), ('chain-str-sha1', False, True)])
-        if module == 'safe' and km[0] == 'raw':
+                         ('chain-str-sha1', True, False), ('chain-md5-pickle', True, True), ('chain-str-sha1', False, True),
+                         ('raw-fastfloat', True, False), ('str-sorted', True, False)])
+        if module == 'safe' and km[0] in ('raw', 'raw-fastfloat'):
             km = ('str', True, False)
         variant = rng.choice(['plain', 'plain', 'frac', 'ignore_y', 'tol0'])
-        if backend in ('file-json', 'dir-json', 'sql') and (km[0] in ('raw', 'dill', 'default', 'chain-md5-pickle') or variant == 'frac'):
+        if backend in ('file-json', 'dir-json', 'sql') and (km[0] in ('raw', 'raw-fastfloat', 'dill', 'default', 'chain-md5-pickle') or variant == 'frac'):
             km = ('str', True, False)
         if backend in ('file-json', 'dir-json', 'sql'):
             variant = 'plain' if variant == 'frac' else variant   # (tuples do not survive JSON; the sqlite fallback stores scalars)
@@ -648,7 +649,7 @@ def scenario_unkeyable(run, nseq, length):
             for backend in ('plain', 'dictarch', 'dir'):
                 for _ in range(nseq):
                     cfg = py_cfg('safe', alg, rng.choice([1, 2]), backend, km, purge=rng.random() < 0.3,
-                                 unkey=rng.choice(['type', 'value']))
+                                 unkey=rng.choice(['type', 'value', 'attr', 'runtime', 'lookuperr', 'recursion']))
                     ops = []
                     for o in cd.random_ops(rng, length, cfg, 9, 'mixed'):
                         if o['op'] == 'call' and rng.random() < 0.35:
@@ -830,7 +831,7 @@ def check_C06(tier):
 
 def check_C07(tier):
     run = CacheRun('C07', tier)
-    plan_common(run, 'C07', ['no'] + BOUNDED, ops=['call', 'load', 'dump', 'dumpk', 'clear', 'arch_off', 'arch_on', 'set_archive'],
+    plan_common(run, 'C07', ['no'] + BOUNDED, ops=['call', 'load', 'dump', 'dumpk', 'clear', 'arch_off', 'arch_on', 'set_archive', 'sync'],
                 args=[1, 2, 3, 4, 8], narchs=(1, 2), purges=(False, True), safes=(False, True), maxsizes=(1, 2),
                 depth_q=5, depth_t=7, sim_num=(8, 60), exh_depth=(4, 5), exh_ops={'call', 'load', 'clear', 'arch_off', 'arch_on'})
     t = tier == 'thorough'
